@@ -4,7 +4,8 @@
    (Base/Threads.v).  Quantified over ANY number of concurrent activators / revokers / ticks, ANY schedule, ANY
    per-caller failing forward write (rollback calls do not fail: single-fault hypothesis), ANY initial code record
    (valid, used, revoked, absent), ANY quota / pre-existing mappings.
-   `tstep Current` is the code with fixes/C06-atomic-claim.diff + fixes/C06-create-rollback-main-record.diff;
+   `tstep Current` is the code with fixes/C06-atomic-claim.diff + fixes/C06-create-rollback-main-record.diff and the
+   per-client quota admission marker of 6d9c096 (fixes/C17-quota-per-client-admission.diff);
    `tstep Pinned` is the tree as found, for which the full statement is refuted below. *)
 From TX Require Import Base.Threads Model.ConnCode Proofs.ConnCode Proofs.SideC06 Gen.C06.
 
@@ -117,7 +118,8 @@ Print Assumptions C06_one_winner_all_schedules.
 
 (* revoked at Claim never creates: in any reachable state within the activation period in which a revocation has
    completed, the claim marker is (still) set, and an activator that read the code BEFORE the revocation and reaches
-   its Claim step now is turned away with an error without touching the store *)
+   its Claim step now is turned away without touching the store: all that is left for it is to give back its own
+   admission marker (next theorem) and return the error *)
 Theorem C06_revoked_at_claim_never_creates :
   forall (P : params) (s : st sh lo) (sched : list nat),
   mains (fst s) = [] ->
@@ -128,9 +130,39 @@ Theorem C06_revoked_at_claim_never_creates :
   (exists tr, In tr (snd s') /\ l_kind tr = KRev /\ l_pc tr = PDone RRevoked) ->
   claim (fst s') = true /\
   forall t l la ok, l_kind t = KAct l la ok -> l_pc t = PClaim ->
-    snd (tstep Current P t (fst s')) = fst s' /\ exists e, l_pc (fst (tstep Current P t (fst s'))) = PDone (RErr e).
+    snd (tstep Current P t (fst s')) = fst s' /\ exists e, l_pc (fst (tstep Current P t (fst s'))) = PRelAdm (RErr e).
 Proof. intros P s sched H1 H2 H3. exact (revoked_at_claim_never_creates P s sched (conj H1 (conj H2 H3))). Qed.
 Print Assumptions C06_revoked_at_claim_never_creates.
+
+(* the deferred ReleaseAdmission step: returns the pending result and touches nothing but the admission markers *)
+Theorem C06_release_admission_only :
+  forall (P : params) (t : lo) (s : sh) l la ok r,
+  l_kind t = KAct l la ok -> l_pc t = PRelAdm r ->
+  l_pc (fst (tstep Current P t s)) = PDone r /\
+  by_code (snd (tstep Current P t s)) = by_code s /\ by_id (snd (tstep Current P t s)) = by_id s /\
+  claim (snd (tstep Current P t s)) = claim s /\ mains (snd (tstep Current P t s)) = mains s /\
+  glob (snd (tstep Current P t s)) = glob s /\ cidx (snd (tstep Current P t s)) = cidx s.
+Proof. exact release_admission_only. Qed.
+Print Assumptions C06_release_admission_only.
+
+(* per-client quota admission marker (6d9c096): an activation refused at the marker — another request of the SAME
+   listen client is being admitted, or the SetNX failed — returns an error and changes nothing *)
+Theorem C06_refused_at_admission_changes_nothing :
+  forall (P : params) (t : lo) (s : sh) l la ok,
+  l_kind t = KAct l la ok -> l_pc t = PAdmit ->
+  (existsb (N.eqb l) (admk s) = true \/ l_fault t = Some 0) ->
+  snd (tstep Current P t s) = s /\ exists e, l_pc (fst (tstep Current P t s)) = PDone (RErr e).
+Proof. exact refused_at_admission_changes_nothing. Qed.
+Print Assumptions C06_refused_at_admission_changes_nothing.
+
+(* activators with DIFFERENT listen clients do not contend on it: a caller whose own client's marker is free is
+   admitted whatever other markers are set, and takes exactly its own *)
+Theorem C06_admission_is_per_client :
+  forall (P : params) (t : lo) (s : sh) l la ok,
+  l_kind t = KAct l la ok -> l_pc t = PAdmit -> existsb (N.eqb l) (admk s) = false -> l_fault t <> Some 0 ->
+  l_pc (fst (tstep Current P t s)) = PQuota /\ admk (snd (tstep Current P t s)) = l :: admk s.
+Proof. exact admission_is_per_client. Qed.
+Print Assumptions C06_admission_is_per_client.
 
 (* the revoke race on a concrete schedule (activator reads, revocation runs to completion, activator goes on):
    repaired code — activation refused, nothing created, record stays revoked; tree as found — the revoked code is
@@ -184,7 +216,7 @@ Proof. exact current_same_schedule_one_success. Qed.
 Print Assumptions C06_repaired_run_nontrivial.
 
 Theorem C06_repaired_failed_append_leaves_nothing :
-  let s := run sh lo (tstep Current P0) (s0 [init_lo 0 (KAct 101 0 true) false (Some 2)]) (repeat 0 12) in
-  finished (snd s) = true /\ errs (snd s) = 1 /\ mains (fst s) = [] /\ claim (fst s) = false.
+  let s := run sh lo (tstep Current P0) (s0 [init_lo 0 (KAct 101 0 true) false (Some 3)]) (repeat 0 14) in
+  finished (snd s) = true /\ errs (snd s) = 1 /\ mains (fst s) = [] /\ claim (fst s) = false /\ admk (fst s) = [].
 Proof. exact current_failed_append_leaves_nothing. Qed.
 Print Assumptions C06_repaired_failed_append_leaves_nothing.
